@@ -1,1 +1,2 @@
 import BufProofs.Props.C13
+import BufProofs.Props.C14
